@@ -146,6 +146,16 @@ def _alarm(signum, frame):
 CTX = _Ctx()
 
 
+def canon_dst(d):
+    """how a destination is written for the model, whose identifiers are naturals: a negative one names no node
+    (5000 + |d|), neither does something that is not an integer at all (1.5, "1": 5999)"""
+    if d is None:
+        return "none"
+    if isinstance(d, bool) or not isinstance(d, int):
+        return "5999"
+    return str(d if d >= 0 else 5000 - d)
+
+
 def _act_str(a):
     k = a[0]
     if k == "settimer":
@@ -154,7 +164,7 @@ def _act_str(a):
         return "cancel %d" % a[1]
     if k == "send":
         # a negative destination names no node; the model's identifiers are naturals: written as 5000 + |d|
-        return "send %d %s" % (a[1], "none" if a[2] is None else str(a[2] if a[2] >= 0 else 5000 - a[2]))
+        return "send %d %s" % (a[1], canon_dst(a[2]))
     if k == "bcast":
         return "bcast %d" % a[1]
     if k == "bcastdst":
@@ -281,7 +291,8 @@ class ScriptedProtocol(IProtocol):
         elif k == "speed":
             p.send_mobility_command(SetSpeedMobilityCommand(a[1]))
         elif k == "range":
-            if self._controller is None:
+            if self._controller is None or CTX.scenario.get("fresh_controllers"):
+                # (in that mode) a new controller object for every request, as code that builds one on the spot does
                 self._controller = CommunicationController(self)
             self._controller.set_transmission_range(a[1])
         elif k == "flag":
